@@ -103,10 +103,19 @@ def gen_cyclic(rng, kind):
     # of the same cyclic group reads `m` as a whole (`s.n @= s.m`); the watch list is built from the objects recorded for the
     # edges, so every field written in the group has to end up watched, whichever side discovered the edge
     nf = rng.randint(2, 3)
-    st = rtlgen.StructT(f'SL{d.uid}', [(f'f{i}', w) for i in range(nf)])
+    if rng.random() < 0.5:
+      # a nested struct field: a sweep that changes only nested leaves must still be seen by the stability test
+      inner = rtlgen.StructT(f'SLI{d.uid}', [(f'g{i}', w) for i in range(2)])
+      fields = [('h', inner)] + [(f'f{i}', w) for i in range(nf - 2)]
+      rng.shuffle(fields)
+    else:
+      fields = [(f'f{i}', w) for i in range(nf)]
+    st = rtlgen.StructT(f'SL{d.uid}', fields)
     m = d.new_sig('', 'm', 0, 'wire', st); n = d.new_sig('', 'n', 0, 'wire', st)
-    fr = {p_: (lo, ww) for (p_, lo, ww, _) in st.named()}
-    F = lambda sg, i: (sg.idx,) + fr[f'f{i}']
+    lv = st.leaves()
+    rng.shuffle(lv)                      # the chain visits the leaves in a random order
+    nf = len(lv)
+    F = lambda sg, i: (sg.idx, lv[i][1], lv[i][2])
     ins = [i0, i1, d.new_sig('', 'in2', w, 'in')]
     def copy_blk(): blk([((n.idx, 0, st.width), R(m))])
     def split_blk():
